@@ -65,6 +65,23 @@ def gen_cases(tier, seed, ctx):
                 y.chunks[k]['digest'] = Z.H(y.chunk_hash_type, bytes(st))        # corrupted body with a MATCHING chunk checksum
                 add('rechecksummed-corruption', y.finish().build(), rnd.choice(scheds))
                 add('rechecksummed-corruption-old-datasum', y.build(), rnd.choice(scheds))
+        # zstd frames that do not record their content size (legal; never written by zck) and chunks made of two frames:
+        # valid as they are, invalid with any other declared length
+        if z.comp_type == 2:
+            zd = z.chunks[0]['plain'] if z.chunks[0]['len'] > 0 else None
+            for k in range(1, len(z.chunks)):
+                pl = z.chunks[k]['plain']
+                half = len(pl) // 2
+                for tag, st in (('nocsize', Z.zcompress_nocs(pl, 3, zd)),
+                                ('twoframes', Z.zcompress_nocs(pl[:half], 3, zd) + Z.zcompress(pl[half:], 3, zd))):
+                    y = copy.deepcopy(z)
+                    y.chunks[k]['stored'] = st; y.chunks[k]['comp_len'] = len(st); y.chunks[k]['digest'] = Z.H(y.chunk_hash_type, st)
+                    y.finish()
+                    add(tag + '-valid', y.build(), rnd.choice(scheds))
+                    for d in (-1, 1, 200):
+                        if len(pl) + d > 0:
+                            y2 = copy.deepcopy(y); y2.chunks[k]['len_enc'] = Z.ci(len(pl) + d)
+                            add(tag + '-declared-len%+d' % d, y2.build(), rnd.choice(scheds))
     return cases
 
 def nontrivial(r):
@@ -75,5 +92,5 @@ def run(tier, seed, replay=None):
             "(none/zstd x dict x uncompressed-source flag x hash types x 0..3 chunks, plus multi-10kB chunks) and on their mutants: "
             "truncation (every length for small files in thorough, sampled otherwise), raw bit flips in header and body, re-sealed field "
             "mutants, swapped bodies / index entries, declared sizes +-1/+200, corrupted bodies with re-computed chunk (and data) checksums, "
-            "trailing garbage, the identifier switched to the detached-header one with the body present / absent; non-trivial = not the unmodified file")
+            "zstd frames without a recorded content size and two-frame chunks (as they are and with declared sizes +-1/+200), trailing garbage, the identifier switched to the detached-header one with the body present / absent; non-trivial = not the unmodified file")
     return E.standard_run(PROP, MODULES, gen_cases, tier, seed, replay, ASSUMPTIONS, rule, nontrivial=nontrivial, timeout_s=60)
